@@ -56,6 +56,11 @@ impl WorldC {
     }
 
     fn enqueue(&mut self, to: SocketAddr, bytes: Vec<u8>, from: SocketAddr) {
+        if from == self.server_addr {
+            if let Some(j) = self.slot_of_addr(to) {
+                self.slots[j].last_from_server_ms = self.slots[j].clock_ms;
+            }
+        }
         self.net.0.borrow_mut().inbox.entry(to).or_default().push_back((bytes, from));
     }
 
@@ -89,6 +94,22 @@ impl WorldC {
                     if msg_disc { "message-layer-disconnected-netcode-not" } else { "netcode-disconnected-message-layer-not" },
                     format!("slot {} message layer {:?} netcode {:?}", j, client.disconnect_reason(), transport.disconnect_reason()),
                 );
+            }
+        }
+        // C20 / C18 through the full stack: only datagrams from the server's own address keep a client alive; when none was
+        // handed to its socket for longer than the timeout (plus one update of slack) the client has given up
+        if matches!(r1, Err(renet_netcode::NetcodeTransportError::IO(_))) {
+            // an update cut short by a socket error did not advance the handshake layer's clock: that time does not count
+            self.slots[j].last_from_server_ms += dt;
+        }
+        {
+            let s = &self.slots[j];
+            if let Some((c, _)) = s.client.as_ref() {
+                obs.count("oracle.C20.silent_server_times_out");
+                let silent = s.clock_ms.saturating_sub(s.last_from_server_ms);
+                if !c.is_disconnected() && silent > self.timeout_s * 1000 + dt + 1000 {
+                    obs.violate("C20", "silent-server-not-timed-out", "client", format!("slot {}: nothing from the server's address for {} ms, timeout {} s", j, silent, self.timeout_s));
+                }
             }
         }
         self.collect_outbox(obs);
@@ -531,6 +552,23 @@ impl WorldC {
                     obs.count("fault.client_crash");
                 }
             }
+            K_SPOOFPORT => {
+                // the relay takes a datagram that is on its way to a client off the wire and hands it over under another source
+                // port of the server's host (the genuine copy is lost): the client only listens to its server's address
+                let j = op.a as usize % ns;
+                if self.slots[j].to_client.is_empty() {
+                    return;
+                }
+                let idx = op.b as usize % self.slots[j].to_client.len();
+                let ix = self.slots[j].to_client.remove(idx);
+                let (bytes, from, to) = self.ledger[ix].clone();
+                let spoofed = SocketAddr::new(from.ip(), from.port().wrapping_add(1 + (op.c % 3) as u16));
+                obs.count("fault.spoofed_source_port");
+                if self.slots[j].decided_side.is_some() {
+                    self.slots[j].lost_after_decision[1] = true;
+                }
+                self.enqueue(to, bytes, spoofed);
+            }
             K_REJOIN => {
                 // a crashed client comes back from another address under the same identity; whatever its old socket sent may
                 // still be in flight, and the server may still hold its old session or half-open entry
@@ -646,6 +684,9 @@ impl WorldC {
             w[13] = 1;
         }
         let dt_menu = [0u64, 16, 16, 16, 33, 50, 100, 100, 250, 250, 500, 1000];
+        if self.cfg.get("spoof") == 1 && !self.slots[j].to_client.is_empty() && rng.chance(1, 3) {
+            return Op::new(K_SPOOFPORT, j as u64, 0, rng.below(3), 0);
+        }
         if ns > 1 && rng.chance(1, 10) {
             if let Some(donor) = (0..ns as usize).find(|&k| self.slots[k].client.is_none() && self.slots[k].id != 0) {
                 let taker = (donor + 1 + rng.below(ns - 1) as usize) % ns as usize;
